@@ -62,7 +62,7 @@ PROPS = {
         design='DESIGN.md §5 C06'),
     'C07': dict(
         title='list/table coherence and memory safety', level='model_checking', templates=['l2'],
-        k_quick=SUB_Q + ['q_op_clear', 'q_op_retain', 'q_op_clone', 'q_drain', 'q_iter_link', 'q_sub_collide', 'q_forget_drain'],
+        k_quick=SUB_Q + ['q_op_clear', 'q_op_retain', 'q_op_clone', 'q_drain', 'q_iter_link', 'q_sub_collide', 'q_forget_drain', 'q_cb_try_reallocate'],
         k_thorough=SUB_T + ['t_op_clear', 't_op_retain', 't_op_clone', 't_drain', 't_iter_link', 't_op_clone_diverge_touch', 't_op_clone_diverge_clear', 't_op_clone_diverge_retain'],
         assumptions=[A_DOUBLE, A_HB, A_UNSAFE, A_KBOUND,
                      'caches with thousands of entries are not reached; composite public operations are covered through V (acct after each of them) over these L1 contracts',
@@ -71,14 +71,14 @@ PROPS = {
     'C08': dict(
         title='size estimation compositional / bulk helpers / total', level='model_checking', templates=['memsize'],
         k_quick=['q_ms_compose_scalar', 'q_ms_vec_string', 'q_ms_bulk_tuple_box', 'q_ms_array_flat', 'q_ms_wrappers', 'q_ms_seq_option_result'],
-        k_thorough=['t_ms_nested', 't_ms_hash'],
+        k_thorough=['t_ms_nested'],
         assumptions=['shapes outside the listed harnesses are not covered', 'stack depth is decided only through the non-recursion obligation of SizedArrayFlatIterator::next (Verus termination checker)',
                      'A-STD: std containers report capacity()/len() truthfully'],
         design='DESIGN.md §5 C08'),
     'C09': dict(
         title='heap_size = allocator bytes (relative to std capacity contracts)', level='model_checking', templates=['memsize'],
         k_quick=['q_ms_alloc_string', 'q_ms_alloc_vec', 'q_ms_alloc_pathbuf', 'q_ms_alloc_box', 'q_ms_alloc_nested', 'q_ms_vec_string', 'q_ms_wrappers', 'q_ms_bulk_tuple_box', 'q_ms_seq_option_result'],
-        k_thorough=['t_ms_alloc_hash', 't_ms_alloc_osstring_cstring'],
+        k_thorough=['t_ms_alloc_osstring_cstring', 't_ms_nested'],
         assumptions=['A-STD: a Vec/BinaryHeap holds capacity()*size_of::<T>() bytes, String/OsString/PathBuf hold capacity() bytes, Box<T> holds size_of_val; the link to real allocator bytes is NOT checked by this technique'],
         design='DESIGN.md §5 C09'),
     'C10': dict(
